@@ -64,6 +64,41 @@ func factsC10() {
 			"activity.go harness.run: atomic.StoreInt32(&node.active, 1) precedes node.activity.NextAction (true) / follows it (false)")
 	}
 
+	// activeResetBeforeHandover: in the answer-relay goroutine of harness.run (the `go func` whose select receives
+	// from `in`), does `atomic.StoreInt32(&node.active, 0)` precede the hand-over `out <- rsp`?
+	{
+		val := ""
+		if fd := funcDecl(act, "harness", "run"); fd != nil && fd.Body != nil {
+			ast.Inspect(fd.Body, func(n ast.Node) bool {
+				g, ok := n.(*ast.GoStmt)
+				if !ok || val != "" {
+					return true
+				}
+				var store, send token.Pos
+				ast.Inspect(g.Call, func(m ast.Node) bool {
+					switch x := m.(type) {
+					case *ast.CallExpr:
+						if store == token.NoPos && strings.HasSuffix(exprString(x.Fun), "StoreInt32") && len(x.Args) == 2 &&
+							strings.HasSuffix(exprString(x.Args[0]), "node.active") && exprString(x.Args[1]) == "0" {
+							store = x.Pos()
+						}
+					case *ast.SendStmt:
+						if send == token.NoPos && exprString(x.Chan) == "out" {
+							send = x.Pos()
+						}
+					}
+					return true
+				})
+				if store != token.NoPos && send != token.NoPos {
+					val = boolLit(store < send)
+				}
+				return true
+			})
+		}
+		add("C10", "activeResetBeforeHandover", "Bool", val,
+			"activity.go harness.run, answer relay: atomic.StoreInt32(&node.active, 0) precedes `out <- rsp` (true) / follows it (false)")
+	}
+
 	// cancellationOnce / listenersShareWaitGroup: both read from newHarness.
 	{
 		once, share := "", ""
